@@ -181,6 +181,48 @@ static void check_format(Ctx &c, const std::string *fmt, int nlists)
     }
 }
 
+// string_view arguments whose storage ends exactly at a PROT_NONE page and carries no terminator: the view's size is
+// the only legitimate bound (a formatter that looks for a zero unit faults)
+static void check_views(Ctx &c, const std::string &fmt)
+{
+    static vf::GuardArena gv;
+    static const char32_t U32[4] = {U'T', 0xE9, 0x20AC, 0x1F600};
+    static const wchar_t W[4] = {L'T', 0xE9, 0x20AC, 0x1F600};
+    static const char16_t U16[4] = {u'T', 0xE9, 0x20AC, u'z'};
+    static const char N8[4] = {'T', 'e', 's', 't'};
+    const char *p = g_arena.place(fmt.c_str(), fmt.size() + 1);
+    for (int k = 0; k < 6; ++k) {
+        vf::events_reset();
+        vf::Outcome o = vf::guard([&] {
+            switch (k) {
+            case 0: (void)ST::format(p, std::u32string_view(gv.place(U32, 4), 4)); break;
+            case 1: (void)ST::format(p, std::wstring_view(gv.place(W, 4), 4)); break;
+            case 2: (void)ST::format(p, std::u16string_view(gv.place(U16, 4), 4)); break;
+            case 3: (void)ST::format(p, std::string_view(gv.place(N8, 4), 4)); break;
+            case 4: (void)ST::format(p, std::u8string_view(reinterpret_cast<const char8_t *>(gv.place(N8, 4)), 4)); break;
+            default: (void)ST::format(p, std::u32string_view(gv.place(U32, 4), 0)); break;  // empty view, non-null data at the page edge
+            }
+        });
+        VF_COUNT("ops");
+        VF_COUNT("validated");
+        static const char *VN[6] = {"u32string_view", "wstring_view", "u16string_view", "string_view", "u8string_view", "empty u32string_view"};
+        switch (o.kind) {
+        case vf::OK: VF_COUNT("out:string"); break;
+        case vf::EX_BADFORMAT: VF_COUNT("out:bad_format"); break;
+        case vf::EX_OUT_OF_RANGE: VF_COUNT("out:out_of_range"); break;
+        case vf::EX_UNICODE: VF_COUNT("out:unicode_error"); break;
+        default:
+            vf::count_dyn("out:VIOLATION");
+            c.fail(strf("view-argument:%s:%s", VN[k], o.kind == vf::EX_ASSERT ? ("assert:" + assert_text(o.what)).c_str() : vf::outkind_name(o.kind)),
+                   strf("format %s with a %s of 4 units: %s", vf::vis(fmt).c_str(), VN[k], o.str().c_str()));
+        }
+        if (vf::events_total()) {
+            c.fail(std::string("heap:") + vf::g_alloc.first_event, strf("allocator event while formatting a %s", VN[k]));
+            vf::events_reset();
+        }
+    }
+}
+
 static std::string describe_fmt(const std::string &s)
 {
     return strf("format[%zu]=%s hex=%s ; argument lists: (), (65), (65,\"str\"), (1e-5,ST::string(\"st\"),'Q'), (ULLONG_MAX), (L\"w\\u00e9\"), (true), "
@@ -333,6 +375,28 @@ static void build(vf::Plan &plan, const vf::Opts &o)
             .case_timeout_s = 5;
     }
 
+    // long output: every minimum width up to the bound, so that the assembled text has every length across the in-object
+    // buffer of the writer (256) and its doublings - the spots where a terminator or a pad run is most likely to step outside
+    {
+        const unsigned WMAXW = o.thorough() ? 4300 : 1100;
+        static const char *WAL[3] = {"", "<", ">"};
+        static const char *WPD[3] = {"", "0", "_*"};
+        auto mk = [](uint64_t i) {
+            std::string f = "{";
+            f += WAL[vf::take(i, 3)];
+            f += WPD[vf::take(i, 3)];
+            f += std::to_string(1 + (unsigned)i);
+            return f + "}";
+        };
+        plan.stage(strf("width sweep 1..%u x 3 alignments x 3 pad kinds x 12 argument lists / sinks", WMAXW), (uint64_t)9 * WMAXW,
+                   [mk](uint64_t i, Ctx &c) {
+                       std::string s = mk(i);
+                       check_format(c, &s, N_LISTS);
+                   },
+                   [mk](uint64_t i) { return describe_fmt(mk(i)); })
+            .case_timeout_s = 5;
+    }
+
     // every well-formed single field over the full option product (optionally behind a literal, so that the
     // writer already holds text when padding is computed): totality of the *rendering* paths the parser selects
     {
@@ -362,8 +426,9 @@ static void build(vf::Plan &plan, const vf::Opts &o)
                    [mk](uint64_t i, Ctx &c) {
                        std::string s = mk(i);
                        check_format(c, &s, N_LISTS);
+                       check_views(c, s);
                    },
-                   [mk](uint64_t i) { return describe_fmt(mk(i)); })
+                   [mk](uint64_t i) { return describe_fmt(mk(i)) + " ; and with unterminated string_view arguments of every width"; })
             .case_timeout_s = 5;
     }
 }
